@@ -1164,29 +1164,4 @@ Proof.
   rewrite forallb_forall in H. specialize (H b Hb). unfold is_byte. lia.
 Qed.
 
-(* ---- stl/config.py decoders in front of DataFile.__init__ ---- *)
-(* whatever _decode_start_tc lets through, SmpteTimeCode.parse accepts: with a decoded configuration the reader never
-   raises ValueError *)
-Lemma decode_start_parses v t : decode_start_tc v = inl (StStr t) -> forall fps, parse_tc t fps <> None.
-Proof.
-  unfold decode_start_tc. destruct v as [t'|]; [|discriminate]. destruct (upper_is 84 67 80 t'); [discriminate|].
-  destruct (match_tc (fun c => negb (c =? newline)) t') as [l|] eqn:E; [|discriminate].
-  intros H. injection H as <-. intros fps. unfold parse_tc. destruct (match_tc (fun c => c =? colon) t'); [discriminate|].
-  rewrite E. discriminate.
-Qed.
-(* "TCP" in any case and the documented HH:MM:SS:FF form are accepted and mean what the specification reads *)
-Lemma decode_start_label t l : label_of_text t = Some l ->
-  decode_start_tc (Some t) = inl (StStr t) /\ spec_start (StStr t) = Some (StartLabel l).
-Proof.
-  intros H. split; [|cbn [spec_start]; rewrite H; reflexivity].
-  pose proof (parse_label t l r25 H) as Hp. destruct (label_inv t l H) as (a & b & c & d & e & f & g & h & ->).
-  unfold decode_start_tc. cbn [upper_is].
-  unfold parse_tc in Hp. destruct (match_tc (fun c0 => c0 =? colon) _) as [l'|] eqn:E; [|cbn [rd r25 Z.eqb] in Hp].
-  - assert (Hm : match_tc (fun c0 => negb (c0 =? newline)) [a; b; 58; c; d; 58; e; f; 58; g; h] = Some l').
-    { cbn [match_tc] in *. change colon with 58 in E. change newline with 10. cbn [Z.eqb Pos.eqb andb negb] in *. exact E. }
-    rewrite Hm. reflexivity.
-  - destruct (match_tc (fun c0 => negb (c0 =? newline)) _); [reflexivity | discriminate].
-Qed.
-Lemma decode_start_tcp a b c : (a = 84 \/ a = 116) -> (b = 67 \/ b = 99) -> (c = 80 \/ c = 112) ->
-  decode_start_tc (Some [a; b; c]) = inl StTCP.
-Proof. intros [-> | ->] [-> | ->] [-> | ->]; reflexivity. Qed.
+(* the configuration decoders of stl/config.py in front of DataFile.__init__: Proofs/C09/Config.v *)
